@@ -3,7 +3,7 @@
    shells: no bound on the number of shells, the degree sequence or the sizes of the angular grids. *)
 From Coq Require Import String List ZArith Bool Lia Ring Ring_theory.
 From VLib Require Import Tables.
-From P Require Import C05_model.
+From P Require Import C05_model C05_model_exec.
 Import ListNotations.
 Local Open Scope nat_scope.
 
@@ -361,6 +361,20 @@ Lemma rotation_keeps_radii_lemma rotate rotate' (sh : list shell) : (forall sd, 
   map (normsq o) (all_pts o rot rotate sh) = map (normsq o) (all_pts o rot rotate' sh).
 Proof. intros H. unfold all_pts. rewrite !concat_map. f_equal. now apply build_pts_normsq. Qed.
 
+Lemma rotation_keeps_radii_full : (forall seed, orthogonal o (rot seed)) ->
+  (forall M p, orthogonal o M -> normsq o (vecmat o p M) = normsq o p) /\
+  (forall rotate i (s : shell),
+     map (normsq o) (shell_pts o rot rotate i s) =
+     map (fun p => mul o (mul o (sh_r s) (sh_r s)) (normsq o p)) (s_pts (sh_sph s))) /\
+  (forall rotate rotate' (sh : list shell),
+     map (normsq o) (all_pts o rot rotate sh) = map (normsq o) (all_pts o rot rotate' sh)).
+Proof.
+  intros H. split; [|split].
+  - intros M p. now apply vecmat_normsq.
+  - intros. now apply radii_lemma.
+  - intros. now apply rotation_keeps_radii_lemma.
+Qed.
+
 (* ---- factorisation of the grid sum for an integrand g(r) * A(direction) *)
 Lemma head_sum (s : shell) rotate i center (F : vec -> T) (g : T -> T) (A : vec -> T) ws ps :
   (forall p, In p ps ->
@@ -648,6 +662,24 @@ Proof.
   intros d'' s'' Hin'' Hx. apply (Hleast s'' d''); [now apply Inv|exact Hx].
 Qed.
 
+Lemma zmem_in x l : zmem x l = true -> In x l.
+Proof.
+  induction l as [|y l IH]; cbn; [discriminate|]. destruct (Z.eqb_spec x y) as [->|]; cbn; [now left|right; auto].
+Qed.
+Lemma zdedupe_in x l : In x l -> In x (zdedupe l).
+Proof.
+  induction l as [|y l IH]; [intros []|]. intros [<-|Hin]; cbn [zdedupe].
+  - destruct (zmem y l) eqn:E; [apply IH, zmem_in, E|now left].
+  - destruct (zmem y l); [auto|right; auto].
+Qed.
+
+Lemma resolvable_convert m sizes : resolvableb ntab m sizes = true -> exists ds, convert m sizes = Some ds.
+Proof.
+  unfold resolvableb. rewrite forallb_forall. intros H. apply traverse_total. intros s Hs.
+  specialize (H s (zdedupe_in s sizes Hs)).
+  destruct (resolve_size m s); [discriminate|discriminate].
+Qed.
+
 Lemma expand_same n ds : length ds = n -> expand n ds = ds.
 Proof. intros <-. destruct ds as [|d [|d' ds]]; reflexivity. Qed.
 
@@ -706,7 +738,7 @@ Proof.
   - (* shell counts *)
     destruct (sector_sizes row) as [ss|] eqn:Ess; [|discriminate].
     apply andb_prop in Hok as [Hok Hn]. apply andb_prop in Hok as [Hres Hne].
-    unfold resolvableb in Hres. destruct (convert m ss) as [ds|] eqn:Ec; [|discriminate].
+    destruct (resolvable_convert m ss Hres) as [ds Ec].
     rewrite (Hpre eq_refl) in Hn. apply Z.eqb_eq, Nat2Z.inj in Hn.
     destruct (convert_spec m ss ds Tok Ec) as [Lds Cs]. cbn [option_map].
     destruct (init_of_supported m rg (Sizes ss) c rotate ds Tok W Hrg Hrot) as (g & Hg & Hd).
@@ -718,7 +750,7 @@ Proof.
       destruct (Cs k ltac:(lia)) as (s' & Hin & Hle & _). exists s'. split; [exact Hin|exact Hle].
   - (* sector radii *)
     apply andb_prop in Hok as [Hlen Hres]. apply Nat.eqb_eq in Hlen.
-    unfold resolvableb in Hres. destruct (convert m (pr_npt row)) as [ds|] eqn:Ec; [|discriminate].
+    destruct (resolvable_convert m _ Hres) as [ds Ec]. rewrite Ec.
     destruct (convert_spec m _ ds Tok Ec) as [Lds Cs].
     destruct (sector_lookup_lemma o (rg_pts rg) (rad_as_T o (pr_rad row)) ds ltac:(lia)) as (l & Hl & Ll & Nl).
     rewrite Hl. cbn [option_map].
@@ -782,6 +814,56 @@ Proof.
 Qed.
 
 End Presets.
+
+(* ================================================================== the light-weight shadow used for big grids *)
+Lemma traverse_nth {A B} (f : A -> option B) l r da db : length l = length r ->
+  (forall k, k < length l -> f (nth k l da) = Some (nth k r db)) -> traverse f l = Some r.
+Proof.
+  revert r; induction l as [|x l IH]; intros [|y r] L H; cbn in L; try lia; [reflexivity|].
+  cbn [traverse]. pose proof (H 0 ltac:(cbn; lia)) as H0. cbn [nth] in H0. rewrite H0.
+  rewrite (IH r); [reflexivity|lia|]. intros k Hk. apply (H (S k)). cbn; lia.
+Qed.
+
+Section LightAgrees.
+Context {T : Type} (o : NumOps T).
+Variable dtab ntab : method -> table.
+Variable ang : method -> Z -> sphere (T:=T).
+Variable rot : Z -> mat (T:=T).
+
+Lemma light_init_agrees m rg spec c rotate g :
+  tables_okb dtab ntab m = true -> rg_wf rg ->
+  (forall d s, In (d, s) (dtab m) -> Z.of_nat (length (s_pts (ang m d))) = s) ->
+  atomgrid_init o dtab ntab ang rot m rg spec c rotate = Some g ->
+  light_init dtab ntab m (length (rg_pts rg)) spec = Some (ag_degs g, ag_idx g).
+Proof.
+  intros Tok W Hsz Hinit.
+  destruct (tables_facts dtab ntab m Tok) as (S1 & _ & _ & N1 & _ & _).
+  destruct (init_shells_lemma o dtab ntab ang rot m rg spec c rotate g Tok W Hinit)
+    as (_ & _ & degs & sh & Hreq & L & _ & -> & [ML _] & K).
+  unfold light_init. unfold requested in Hreq. rewrite Hreq, L, Nat.eqb_refl. cbn [negb].
+  rewrite (traverse_nth _ degs (map (fun s => (sh_deg s, sh_size s)) sh) 0%Z (0%Z, 0%Z)).
+  - cbn [ag_degs ag_idx atomgrid_of]. rewrite !map_map. cbn [fst snd]. reflexivity.
+  - rewrite map_length. lia.
+  - intros k Hk. rewrite (nth_map_lt _ sh k (shell0 o)) by lia.
+    specialize (K k ltac:(lia)). unfold angular, resolve_degree in *.
+    destruct (resolve (dtab m) (nth k degs 0%Z)) as [[d' s']|] eqn:E; [|discriminate].
+    injection K as K1 K2. destruct (resolve_some _ _ _ _ S1 N1 E) as (_ & Hin & _).
+    unfold sh_size. rewrite <- K2, <- K1, (Hsz d' s' Hin). reflexivity.
+Qed.
+
+Lemma light_init_builds m rg spec c rotate r : rg_wf rg -> rg_okb o rg = true -> rot_okb rg rotate = true ->
+  light_init dtab ntab m (length (rg_pts rg)) spec = Some r ->
+  exists g, atomgrid_init o dtab ntab ang rot m rg spec c rotate = Some g.
+Proof.
+  intros W Hrg Hrot H. unfold light_init in H.
+  destruct (option_map (expand (length (rg_pts rg))) _) as [degs|] eqn:Hreq; [|discriminate].
+  destruct (Nat.eqb_spec (length degs) (length (rg_pts rg))) as [L|]; [|discriminate]. cbn [negb] in H.
+  destruct (traverse (resolve_degree dtab m) degs) as [ds|] eqn:Et; [|discriminate].
+  destruct (init_total o dtab ntab ang rot m rg spec c rotate degs W Hrg Hrot Hreq L) as (sh & _ & Hi).
+  - intros d Hd Hn. apply (traverse_none _ _ _ Hd) in Hn. congruence.
+  - eauto.
+Qed.
+End LightAgrees.
 
 (* ================================================================== pruned grids: degree of every radial point *)
 Section Pruned.
